@@ -519,14 +519,17 @@ PROPS = {
                        "at most the requestor's advertised payload size with values below 512 counted as 512, and, if the server was configured with a limit, at most that limit (not under 512). The property is the "
                        "*precondition* of the model of UdpTransportContext::set_max_response_size_hint (the real one stores through Arc<Mutex<..>> behind a shared reference, so no postcondition of preprocess can name the "
                        "stored value; the model context carries the advertised size of the request's first OPT record as ghost state). The u16 arithmetic and Ord::clamp (lo <= hi) cannot panic. "
-                       "reserve_space_for_opt (real text): 11 octets are reserved for the OPT record of the response, 17 over TCP (keep-alive option). MandatoryMiddlewareSvc::{preprocess, postprocess} "
+                       "reserve_space_for_opt (real text): 11 octets are reserved for the OPT record of the response, 17 over TCP (keep-alive option). MandatoryMiddlewareSvc::truncate (the enforcing side, real text: nested conditions, "
+                       "the question loop, the closure that rebuilds a minimal OPT record): a response is touched only over UDP and only if it is longer than the limit of the transport context (512 without one); then TC is set, "
+                       "answer and authority sections are dropped, the questions stay in order and an OPT record stays only if the response had one; ID, QR and RD are left alone; an error leaves the header fields alone. "
+                       "MandatoryMiddlewareSvc::{preprocess, postprocess} "
                        "(middleware/mandatory.rs, real text): in strict mode IQUERY is answered NOTIMP and a QUERY with more than one question FORMERR, nothing else is broken off; whatever the service produced "
                        "leaves with the ID of its request, QR set and RD copied from the request, also when truncation fails and a SERVFAIL takes its place. MessageBuilder::{start_answer, start_error} (unit starterr, base/message_builder.rs, real text -- every server error path goes through "
                        "mk_error_response -> start_error): the response header gets the request's ID, QR set, the request's opcode and RD bit and the given code; the request's questions are copied in order; start_answer "
                        "fails if one does not fit, start_error never fails -- it stops at the first question that does not fit and answers SERVFAIL.",
         "not_covered": "Everything else of the statement: that every response is sent back once, to the requester, with the request's ID and question, correctly framed (sockets, tasks and middleware stacks over tokio); that the "
-                       "limit decided here is the one enforced -- MandatoryMiddlewareSvc::truncate compares the response length with the hint (512 without EDNS) and rebuilds header, question and OPT record, which is not "
-                       "under contract (message builder with closures; the rebuilt message is not compared with the limit again: an observation, see DESIGN.md) --; TC bit and well-formedness of truncated messages; "
+                       "rebuilt message is itself within the limit (truncate does not compare it with the limit again, and the response's whole OPT record is copied: an observation, see DESIGN.md); well-formedness of "
+                       "truncated messages at octet level (C02); "
                        "hostile input on one connection not affecting others. Message::opt() / additional() / the OPT iterator are models (C01 has the real iterators).",
         "assumptions": [
             "Request, Message, OptRecord, TransportSpecificContext and the tracing macros are prelude models; log_enabled!() may answer anything",
